@@ -14,6 +14,8 @@ import (
 	"sort"
 	"strconv"
 	"strings"
+	"sync"
+	"sync/atomic"
 	"time"
 )
 
@@ -157,7 +159,36 @@ func loadKnown(property string) (map[string]bool, map[string]string) {
 
 // safeExecute runs the engine and converts a panic of the harness or the code under test that
 // escaped the engine's own handling into a harness fault (never a VIOLATION).
+// run watchdog: a single simulated run that does not return within the limit (a livelock of the
+// harness or of the code under simulation) ends the worker process with exit 2 - harness trouble,
+// never a verdict - instead of hanging the check.
+var (
+	watchStart atomic.Int64 // unix nanoseconds of the start of the run in progress, 0 when idle
+	watchWhat  atomic.Value // string
+	watchOnce  sync.Once
+)
+
+func startWatchdog() {
+	limit := 900 * time.Second
+	if v, err := strconv.Atoi(os.Getenv("VERIF_RUN_WATCHDOG_S")); err == nil && v > 0 {
+		limit = time.Duration(v) * time.Second
+	}
+	go func() {
+		for {
+			time.Sleep(5 * time.Second)
+			if st := watchStart.Load(); st != 0 && time.Since(time.Unix(0, st)) > limit {
+				fmt.Fprintf(os.Stderr, "HARNESS-WATCHDOG: %v did not finish within %v (harness trouble, not a verdict)\n", watchWhat.Load(), limit)
+				os.Exit(2)
+			}
+		}
+	}()
+}
+
 func safeExecute(e Engine, r *Run) (v *Violation, fatal string) {
+	watchOnce.Do(startWatchdog)
+	watchWhat.Store(fmt.Sprintf("run property=%s seed=%d index=%d", r.Property, r.Seed, r.Index))
+	watchStart.Store(time.Now().UnixNano())
+	defer watchStart.Store(0)
 	defer func() {
 		if p := recover(); p != nil {
 			fatal = fmt.Sprintf("panic in run %d: %v\n%s", r.Index, p, debug.Stack())
